@@ -27,7 +27,7 @@ use crate::{
 pub const STACK_BYTES: usize = 8 << 20;
 const CLIP: usize = 3000;
 
-fn clip(s: &str) -> String {
+pub fn clip(s: &str) -> String {
 	if s.len() <= CLIP {
 		return s.to_owned();
 	}
@@ -222,11 +222,15 @@ const AS_LIMIT: u64 = 6 << 30;
 
 impl Worker {
 	pub fn spawn() -> std::io::Result<Worker> {
+		Self::spawn_exe(std::env::current_exe()?)
+	}
+	/// a worker running another build of this harness (C01: the build with jrsonnet's experimental syntax enabled)
+	pub fn spawn_exe(exe: std::path::PathBuf) -> std::io::Result<Worker> {
 		let dir = format!("{VERIF}/target/worker-logs");
 		std::fs::create_dir_all(&dir)?;
 		let log = format!("{dir}/{}-{}.log", std::process::id(), COUNTER.fetch_add(1, Ordering::SeqCst));
 		let logf = std::fs::File::create(&log)?;
-		let mut cmd = Command::new(std::env::current_exe()?);
+		let mut cmd = Command::new(exe);
 		cmd.arg("worker").stdin(Stdio::piped()).stdout(Stdio::piped()).stderr(Stdio::from(logf));
 		unsafe {
 			cmd.pre_exec(|| {
@@ -310,6 +314,24 @@ impl Drop for Worker {
 
 thread_local! {
 	static WORKER: RefCell<Option<Worker>> = const { RefCell::new(None) };
+	static WORKER_EXP: RefCell<Option<Worker>> = const { RefCell::new(None) };
+}
+
+/// the harness built with `--features exp` (jrsonnet's exp-destruct, exp-null-coaelse, exp-object-iteration)
+pub const EXP_EXE: &str = "/verif/target/exp/debug/jv";
+/// ask this thread's worker of the experimental-syntax build
+pub fn ask_exp(req: &Value, timeout_s: u64) -> Reply {
+	WORKER_EXP.with(|w| {
+		let mut w = w.borrow_mut();
+		if w.as_ref().map(|x| x.dead).unwrap_or(true) {
+			*w = None;
+			match Worker::spawn_exe(EXP_EXE.into()) {
+				Ok(n) => *w = Some(n),
+				Err(e) => return Reply::Died { status: format!("cannot start worker: {e}"), stderr: String::new() },
+			}
+		}
+		w.as_mut().unwrap().ask(req, Duration::from_secs(timeout_s))
+	})
 }
 
 /// ask this thread's worker (started on first use, restarted after a death or a timeout)
@@ -329,4 +351,7 @@ pub fn ask(req: &Value, timeout_s: u64) -> Reply {
 /// stop this thread's worker (thread-local destructors of scoped threads run anyway; this is for the main thread)
 pub fn retire() {
 	WORKER.with(|w| *w.borrow_mut() = None);
+}
+pub fn retire_exp() {
+	WORKER_EXP.with(|w| *w.borrow_mut() = None);
 }
